@@ -31,3 +31,109 @@ func TestC01_OrOnComplex(t *testing.T) {
 			End()
 	})
 }
+
+// ---- R1.1 value-without-type: operands emitted without their type being looked at ----
+
+// Send: `c <- "str"` with c chan int (value operand) and `x <- 1` with x int (channel operand)
+func TestC01_SendUnchecked(t *testing.T) {
+	pkg := newPkg()
+	mustBeAcceptedButIllTyped(t, pkg, func() {
+		pkg.NewFunc(nil, "main", nil, nil, false).BodyStart(pkg).
+			NewVar(types.NewChan(types.SendRecv, types.Typ[types.Int]), "c").
+			VarVal("c").Val("str").Send().
+			End()
+	})
+	pkg = newPkg()
+	mustBeAcceptedButIllTyped(t, pkg, func() {
+		pkg.NewFunc(nil, "main", nil, nil, false).BodyStart(pkg).
+			NewVar(types.Typ[types.Int], "x").
+			VarVal("x").Val(1).Send().
+			End()
+	})
+}
+
+// Defer / Go: `defer int(x)` (a conversion, not a call) is accepted
+func TestC01_DeferGoConversion(t *testing.T) {
+	for _, isGo := range []bool{false, true} {
+		pkg := newPkg()
+		mustBeAcceptedButIllTyped(t, pkg, func() {
+			cb := pkg.NewFunc(nil, "main", nil, nil, false).BodyStart(pkg).
+				NewVar(types.Typ[types.Int64], "x").
+				Typ(types.Typ[types.Int]).VarVal("x").Call(1)
+			if isGo {
+				cb.Go()
+			} else {
+				cb.Defer()
+			}
+			cb.End()
+		})
+	}
+}
+
+// EndStmt: `x + x` as a statement
+func TestC01_ExprStmtNotUsed(t *testing.T) {
+	pkg := newPkg()
+	mustBeAcceptedButIllTyped(t, pkg, func() {
+		pkg.NewFunc(nil, "main", nil, nil, false).BodyStart(pkg).
+			NewVar(types.Typ[types.Int], "x").
+			VarVal("x").VarVal("x").BinaryOp(token.ADD).EndStmt().
+			End()
+	})
+}
+
+// IndexRef: `a["k"] = 1` on a slice
+func TestC01_IndexRefIndexUnchecked(t *testing.T) {
+	pkg := newPkg()
+	mustBeAcceptedButIllTyped(t, pkg, func() {
+		pkg.NewFunc(nil, "main", nil, nil, false).BodyStart(pkg).
+			NewVar(types.NewSlice(types.Typ[types.Int]), "a").
+			VarVal("a").Val("k").IndexRef(1).Val(1).Assign(1).
+			End()
+	})
+}
+
+// Slice: each of the three bounds is emitted unchecked: a["x":], a[:"y"], a[::"z"]-like
+func TestC01_SliceBoundsUnchecked(t *testing.T) {
+	for k := 1; k <= 3; k++ {
+		pkg := newPkg()
+		mustBeAcceptedButIllTyped(t, pkg, func() {
+			cb := pkg.NewFunc(nil, "main", nil, nil, false).BodyStart(pkg).
+				NewVar(types.NewSlice(types.Typ[types.Int]), "a").
+				DefineVarStart(0, "b").
+				VarVal("a")
+			for i := 1; i <= 3; i++ {
+				if i == k {
+					cb.Val("s")
+				} else {
+					cb.Val(i)
+				}
+			}
+			cb.Slice(true).EndInit(1).End()
+		})
+	}
+}
+
+// make: `make([]int, "n")`
+func TestC01_MakeSizeUnchecked(t *testing.T) {
+	pkg := newPkg()
+	mustBeAcceptedButIllTyped(t, pkg, func() {
+		pkg.NewFunc(nil, "main", nil, nil, false).BodyStart(pkg).
+			DefineVarStart(0, "b").
+			Val(pkg.Builtin().Ref("make")).Typ(types.NewSlice(types.Typ[types.Int])).Val("n").Call(2).
+			EndInit(1).
+			End()
+	})
+}
+
+// Index: `a["k"]` on a slice (value side)
+func TestC01_IndexIndexUnchecked(t *testing.T) {
+	pkg := newPkg()
+	mustBeAcceptedButIllTyped(t, pkg, func() {
+		pkg.NewFunc(nil, "main", nil, nil, false).BodyStart(pkg).
+			NewVar(types.NewSlice(types.Typ[types.Int]), "a").
+			DefineVarStart(0, "b").
+			VarVal("a").Val("k").Index(1, 0).
+			EndInit(1).
+			End()
+	})
+}
